@@ -271,6 +271,9 @@ def import_expr(pos, path, i):
         return ['let m%d = module {} => { let q = %s; };' % (i, imp), 'let i%d = m%d{};' % (i, i)], "i%d.q" % i
     if pos == "moduleOut":
         return ['let m%d = module {} => (%s) { let z = 0; };' % (i, imp), 'let i%d = m%d{};' % (i, i)], "i%d" % i
+    if pos == "fmtExpr":
+        # inside a format string only text gets out: the imported file's name stands for its tree (FMT_LEAF)
+        return ['let i%d = "@{(%s).name}" %% 1;' % (i, imp.replace('"', '\\"'))], "{tree = {name = i%d, kids = [], incs = [], via = \"fmt\"}}" % i
     raise C.ToolError("unknown import position %r" % pos)
 
 
@@ -290,6 +293,8 @@ def include_expr(pos, path, i):
         return ['let d%d = {m = %s};' % (i, inc)], "d%d.m" % i
     if pos == "moduleBody":
         return ['let n%d = module {} => { let q = %s; };' % (i, inc), 'let d%d = n%d{};' % (i, i)], "d%d.q" % i
+    if pos == "fmtExpr":
+        return ['let d%d = "@{%s}" %% 1;' % (i, inc.replace('"', '\\"'))], "d%d" % i
     raise C.ToolError("unknown include position %r" % pos)
 
 
@@ -343,6 +348,11 @@ def render_file(lay, f, rng, out_values=None):
     return "\n".join(lines) + "\n"
 
 
+def fmt_leaf(lay, g):
+    """what an import inside a format string's @{...} shows of the imported file g: its name"""
+    return {"name": lay.ident(g), "kids": [], "incs": [], "via": "fmt"}
+
+
 def expected_tree(lay, f, upto=None, seen=()):
     """The value `tree` (or the out value at statement `upto`) of file f when every import
     names the file the specification says (tgt) -- the refinement of ResolveRelToFile."""
@@ -351,7 +361,9 @@ def expected_tree(lay, f, upto=None, seen=()):
     for i, s in enumerate(body, 1):
         if upto is not None and i >= upto:
             break
-        if s["k"] == "imp" and s["pos"] != "failMsg":
+        if s["k"] == "imp" and s["pos"] == "fmtExpr":
+            kids.append(fmt_leaf(lay, s["tgt"]))
+        elif s["k"] == "imp" and s["pos"] != "failMsg":
             kids.append(expected_tree(lay, s["tgt"], None, seen + (f,)) if s["tgt"] not in seen + (f,) else None)
         elif s["k"] == "inc" and s["pos"] != "failMsg":
             incs.append("DATA:" + lay.ident(s["tgt"]))
